@@ -501,6 +501,21 @@ def correspondence(ctx):
             continue
         if not r.get('inputs_unchanged', True):
             mutated += 1
+            md = r.get('modified') or {}
+            txt = '; '.join(f'{k}: {kcorr.fmt(v[0][0]) if v[0] else None} -> {kcorr.fmt(v[1][0]) if v[1] else None}' for k, v in md.items())
+            ctx.violation('inputs-modified', f'{g["what"]} on a {g["model"]["kind"]} model modified its arguments in place ({txt}): every later use of '
+                          f'the same parameter objects (fwhm(params), a second evaluation, the parts of a composite) sees other values',
+                          {'group': strip(g), 'modified': md})
+        if 'repeat' in r:
+            rep = r['repeat']
+            first, again = r['result'], rep
+            k_bad = 0
+            if 'values' in again:
+                k_bad = next((k for k, (a, b) in enumerate(zip(first['values'], again['values'])) if a != b), 0)
+            ctx.violation(f'{g["what"]}:repeat-differs', f'{g["what"]} on a {g["model"]["kind"]} model evaluated twice with the same model and '
+                          f'parameter objects: first {kcorr.fmt(first["values"][k_bad])}, then '
+                          f'{kcorr.fmt(again["values"][k_bad]) if "values" in again else again} (element {k_bad})',
+                          {'group': strip(g), 'first': kcorr.fmt(first['values'][k_bad]), 'again': again.get('error') or kcorr.fmt(again['values'][k_bad])})
         if 'param_names' in r and sorted(r['param_names']) != sorted(set(pnames(g['model']))):
             ctx.violation('param_names', f'model.param_names {r["param_names"]} differ from prefix + names for {g["model"]}',
                           {'group': strip(g), 'impl_param_names': r['param_names']})
@@ -533,7 +548,7 @@ def correspondence(ctx):
         ctx.violation(key, f'{d["what"]} on {kind}: implementation differs from {against} ({why}) on {d}',
                       {'case': d, 'reason': why, 'group': strip(by_id[d['group']]), 'against': 'RefLeaf.v' if use_ref else 'GenModel.v'})
     if mutated:
-        ctx.violation('inputs-modified', f'{mutated} calls modified their arguments', {'count': mutated})
+        ctx.coverage['calls_that_modified_their_arguments'] = mutated
     per, per_layout = {}, {}
     for d in descs:
         k = d['what'] + ':' + d['model']['kind'] + (':' + d['mutate'] if d['mutate'] else '')
@@ -553,7 +568,8 @@ def correspondence(ctx):
                 '(|x - loc| / scale up to 1e4) in ascending / descending / shuffled 1-d order, 2-d row-major, 2-d transposed '
                 '(non-contiguous view) or 0-d: every element is compared with the scalar model at that x; result dims/shape '
                 '= those of x; 12% error cases (missing/extra/misprefixed parameter, unit and '
-                'dimension mismatches, overlapping names, degree <= 0), 8% fwhm calls; non-trivial = the implementation returned a '
+                'dimension mismatches, overlapping names, degree <= 0), 8% fwhm calls; every call / fwhm is made twice with the same '
+                'model and parameter objects (same result, arguments unchanged); non-trivial = the implementation returned a '
                 'value; distinct = distinct (model, params, x)',
         'samples': descs[:3] + descs[-2:],
         'per_kind': per,
@@ -709,6 +725,10 @@ def search(ctx, broken):
                 viol(f'{kind}:call-raises', f'{kind} raises {r.get("error")} on valid parameters ({ltxt})',
                      {'group': g, 'error': r.get('error_text'), 'x_layout': lay})
                 continue
+            if not r.get('inputs_unchanged', True) or 'repeat' in r:
+                viol(f'{kind}:history', f'{kind}: the call modified its arguments in place ({sorted(r.get("modified") or {})}) or a second evaluation '
+                     f'with the same objects gave another result ({ltxt}; {ptxt})',
+                     {'group': g, 'modified': r.get('modified'), 'x_layout': lay})
             if r['result'].get('shape') != r['x']['shape'] or r['result'].get('dims') != r['x']['dims']:
                 viol(f'{kind}:shape', f'{kind}: result dims {r["result"].get("dims")} shape {r["result"].get("shape")} differ from '
                      f'those of x ({r["x"]["dims"]}, {r["x"]["shape"]}; {ltxt})', {'group': g, 'x_layout': lay})
